@@ -13,6 +13,7 @@ CONSTANTS
   UbiLayouts = {"C"}
   Builds = {"indexer", "from_colfile"}
   Preps = {"direct", "rings"}
+  NFKinds = {}
   Flatten = "ravelK"
 INVARIANT BestGrain
 CHECK_DEADLOCK FALSE
